@@ -368,7 +368,7 @@ def c12_scenarios(tier, seed):
     tree = ["bin/tool", "bin/keep.txt", "build/a.o", "build/b.o", "build/readme.md", "dist/pkg/x.tar", "dist/pkg/sub/y.tar", "src/main.go", "src/a.o", "out.txt", "notes.md",
             ".hidden/z.o", "decoy/out.txt", "build.log", "out.txt.bak", "dist/pkg.sha", ".x_cache/f.bin", "my_cache/f.bin", "my_cache/sub/g.bin", "cache.db", "zcache"]
     kinds = ["litfile", "litdir", "named_rel", "named_join", "glob", "glob_none", "missing", "litdir_build", "litfile_buildlog", "glob_top", "litfile_bak", "litfile_sha",
-             "named_empty", "named_dot", "lit_parent", "named_abs_outside"]
+             "named_empty", "named_dot", "lit_parent", "named_abs_outside", "glob_spok", "lit_spokfile"]
     n = 400 if tier == "quick" else 20000
     for it in range(n):
         present = [p for p in tree if rnd.random() < 0.75]
@@ -405,6 +405,10 @@ def c12_scenarios(tier, seed):
                         des.append(["proj"] + p.split("/")); alt.append(["proj"] + p.split("/"))
             elif kind == "glob_none":
                 outs.append('"**/*.nomatch"')
+            elif kind == "glob_spok":
+                outs.append('"spok*"'); degenerate = True           # a glob that matches the spokfile itself
+            elif kind == "lit_spokfile":
+                outs.append('"spokfile"'); degenerate = True
             elif kind == "litdir_build":
                 outs.append('"build"'); des.append(["proj", "build"]); alt.append(["proj", "build"])
             elif kind == "litfile_buildlog":
